@@ -29,6 +29,7 @@ LIBS = ['gnpy/example-data/eqpt_config.json', 'gnpy/example-data/eqpt_config_mul
         'tests/data/eqpt_config_psw.json', 'tests/data/eqpt_config_sweep.json']
 
 _lib_cache = {}
+_lib_errors = []
 
 
 def library():
@@ -43,7 +44,8 @@ def library():
             continue
         try:
             eq = load_equipment(p)
-        except Exception:  # noqa
+        except Exception as ex:  # noqa   (a shipped library that no longer loads is reported by run())
+            _lib_errors.append((rel, f'{type(ex).__name__}: {ex}'))
             continue
         for name, amp in eq.get('Edfa', {}).items():
             _lib_cache[(rel, name)] = (amp, eq['Edfa'])
@@ -461,6 +463,10 @@ def run(ctx):
     lib = library()
     keys = sorted(lib.keys())
     ctx.count('library_entries', len(keys))
+    for rel, err in _lib_errors:
+        ctx.violation('library_load', f'amplifier library {rel} is rejected: {err[:200]}', {'library': rel})
+    if not keys:
+        return common.finish(ctx, {})
     cases = []
     for f in sorted(glob.glob(os.path.join(common.VERIF, 'corpus', 'C04', '*.json'))):
         c = json.load(open(f))
@@ -567,7 +573,4 @@ def run(ctx):
         'fixed-gain / OpenROADM / polynomial (advanced_model) / dual-stage NF formulas are tied by correspondence only; '
         'the theorems about NF are for the variable-gain (nf_min/nf_max) model',
     ]
-
-    def known_single(v):
-        return v['key'] == 'single_channel_crash'
-    return common.finish(ctx, {'C04-single-channel-indexerror': known_single})
+    return common.finish(ctx, {})
